@@ -30,6 +30,10 @@ def run(ctx):
         H = (A + A.conj().T) / 2
         if kind.startswith("diag-dominant"):
             H = H * 0.1 + numpy.diag(numpy.arange(dim, dtype=float))
+        if case % 10 == 9:
+            # an exactly diagonal matrix: the default guess vectors are exact eigenvectors, every residual is zero
+            kind = "diagonal"
+            H = numpy.diag(numpy.sort(nr.uniform(-2.0, 5.0, dim)))
         if kind == "degenerate":
             Q, _ = numpy.linalg.qr(nr.randn(dim, dim))
             ev = numpy.sort(nr.randint(-3, 4, dim).astype(float))
@@ -129,6 +133,16 @@ def run(ctx):
             guess_data = [(nr.randn(*shp) + (1j * nr.randn(*shp) if cplx_g else 0)).astype(numpy.complex128)
                           for _ in range(nroots + 1)]
         fqe_case(ctx, case, norb, na, nb, h1, h2, api, nroots, guess_data, cplx_h, cplx_g)
+    # the module-level entry point on sectors with a completely filled spin shell (its shifted guess determinant does not
+    # exist there) and with a diagonal one-body Hamiltonian (exact guesses): a result or ConvergenceError, nothing else
+    for k_, (norb, na, nb) in enumerate([(3, 3, 1), (3, 1, 3), (4, 4, 2), (4, 2, 2)]):
+        if quick and ctx.path != "C" and k_ > 0:
+            continue
+        h1 = nr.randn(norb, norb)
+        h1 = (h1 + h1.T) / 2 + numpy.diag(numpy.arange(norb, dtype=float))
+        if (norb, na, nb) == (4, 2, 2):
+            h1 = numpy.diag(numpy.arange(norb, dtype=float) + 0.25)
+        fqe_case(ctx, 5000 + k_, norb, na, nb, h1, numpy.zeros((norb,) * 4), "davidson_diagonalization", 1, None, False, False)
 
 
 def cluster_unresolved(exact, got, nroots, res, nerr):
